@@ -31,6 +31,7 @@ class TCPServer:
         self.context = context
         self.loop = loop
         self.protocol: ProtocolWrapper
+        self.reading = True
         self.reader = reader
         self.writer = writer
         self.send_lock = asyncio.Lock()
@@ -70,6 +71,9 @@ class TCPServer:
                 await self.protocol.initiate()
                 await self.idle_task.restart(task_group, self._idle_timeout)
                 await self._read_data()
+                # The peer is gone, do not wait for the keep alive timeout
+                self.reading = False
+                await self.idle_task.stop()
         except OSError:
             pass
         finally:
@@ -86,8 +90,10 @@ class TCPServer:
         elif isinstance(event, Closed):
             await self._close()
         elif isinstance(event, Updated):
-            if event.idle:
+            if event.idle and self.reading:
                 await self.idle_task.restart(self._task_group, self._idle_timeout)
+            elif event.idle:
+                pass  # Nothing more will be read, no point in waiting for it
             else:
                 await self.idle_task.stop()
 
